@@ -24,6 +24,7 @@ CONSTANTS Mode,        \* "rpc" | "dc"
           MaxDepth,    \* maximal number of constructors in a term
           Ctors,       \* constructor alphabet for this run
           Leaves,      \* leaf alphabet for this run
+          DeepLeaves,  \* leaves allowed below two or more constructors (a subset keeps the quick tier small)
           SigLeaves,   \* rpc: leaves that are additionally embedded in two-parameter / defaulted signatures
           Variants     \* dc: field variants ("plain", "default", "transient")
 
@@ -108,7 +109,8 @@ InScope(t) ==
               /\ (HasContainer(t) => (Leaf(t) # "enum" /\ ~Has(t, "map_enum"))))
           \/ (Len(p) >= 1 /\ p[1] = "dc")
           \/ (Len(p) >= 2 /\ p[1] = "opt" /\ p[2] = "dc")
-TypesInScope == {t \in {p \o <<l>> : p \in PrefixesUpTo(MaxDepth), l \in Leaves} : InScope(t)}
+TypesInScope == {t \in {p \o <<l>> : p \in PrefixesUpTo(MaxDepth), l \in Leaves} :
+                    InScope(t) /\ (Len(t) >= 3 => Leaf(t) \in DeepLeaves)}
 
 \* ------------------------------------------------------------------ cases
 Shapes(t) == (IF t[1] = "opt" THEN {"none"} ELSE {})
